@@ -8,7 +8,7 @@ import core
 # end-to-end part: requests of a local client feature through the real receive path (a response that references an
 # unanswered request - whether it can be processed or not - re-enables sending; disconnect forgets the memory)
 CORE_PART = {
-    "checked": ["ret", "reqs", "panic"],
+    "checked": ["ret", "reqs", "panic", "late"],
     "assumptions": [],
     "quick": {"mc": [{"acts": ["lreq", "cbrecv", "disconnect", "connect", "discover"], "maxlen": 5, "prefix": "PrefixP1", "maxreq": 2}],
               "gen": [{"acts": ["lreq", "cbrecv"], "maxlen": 4, "prefix": "PrefixP1", "maxreq": 3},
